@@ -16,7 +16,7 @@ Does not decide: that sourcing the text in a real shell has no other effect."""
 import re
 from core import *
 from dataflow import *
-from cfgq import fn_refs
+from cfgq import fn_refs, switch_on_call, switches, Switch
 
 LEVEL = 'other'
 EXPLANATION = __doc__
@@ -25,7 +25,7 @@ ASSUMPTIONS = [
     'ShellComp::Raw strings and &\'static constants are supplied by the developer, not by the user at completion time',
     'shell semantics: text inside single quotes with \' -> \'\\\'\' is data for bash and zsh',
 ]
-FLOORS = {'T1.typed-quoting': 19, 'T2.newline': 23, 'T3.accumulator': 6, 'T4.coverage': 12, 'T5.escaper': 5, 'T6.dispatch': 5, 'T7.stubs': 8, 'T8.line-protocol': 2}
+FLOORS = {'T1.typed-quoting': 19, 'T2.newline': 23, 'T3.accumulator': 6, 'T4.coverage': 12, 'T5.escaper': 4, 'T6.dispatch': 5, 'T7.stubs': 8, 'T8.line-protocol': 2}
 
 RENDERERS = ['render_zsh', 'render_bash', 'render_fish', 'render_simple']
 INT_TYPES = {'usize', 'u8', 'u16', 'u32', 'u64', 'u128', 'isize', 'i8', 'i16', 'i32', 'i64', 'i128'}
@@ -298,53 +298,75 @@ def t4(ctx, cfg, fs, bodies):
                        where=body.where(rb), cfg=cfg)
 
 def t5(ctx, cfg, fs):
+    """Shell(..) as a transducer: what is written for one character, by class of character, and what frames the whole.
+    The per-character unit is found either as the body of the loop over self.0.chars() or as the closure handed to an
+    iterator method (for_each / try_for_each / try_fold ..) on it; the abstract walker evaluates it for a quote and for
+    other characters."""
+    from absint import Walker, UNKNOWN
     body = ctx.look(fs.one(r"^<complete_shell::Shell<'_> as std::fmt::Display>::fmt$"))
     Q = "'"
-    def is_write_char_q(c):
-        return c.is_(r'write_char$') and len(c.args) == 2 and (op_const(c.args[1]) or {}).get('v') == Q
-    wq = [c for c in body.calls() if is_write_char_q(c)]
-    oks = ok_assignments(body)
-    ctx.ob('T5.escaper', 'Shell::fmt:ok-returns', len(oks) >= 1, 'Shell::fmt has %d Ok return(s)' % len(oks), cfg=cfg)
-    nxt = [c for c in body.calls() if c.is_(r"std::str::Chars<'a> as std::iter::Iterator>::next$")]
-    if len(nxt) != 1:
-        raise Broken('Shell::fmt: expected one Chars::next loop, found %d' % len(nxt))
-    loop = nxt[0].bb
-    opening = [c for c in wq if body.dominates(c.bb, loop)]
-    ctx.ob('T5.escaper', 'Shell::fmt:opening-quote', bool(opening), 'an opening quote write_char(\'\\\'\') dominates the character loop: %s' % bool(opening), where=body.where(), cfg=cfg)
-    closing_ok = True
-    for (b, k, op) in oks:
-        if not any(body.dominates(c.bb, b) and body.dominates(loop, c.bb) and not body.reaches(c.bb, [loop]) for c in wq):
-            closing_ok = False
-    ctx.ob('T5.escaper', 'Shell::fmt:closing-quote', closing_ok, 'every Ok return is dominated by a closing quote written after the loop: %s' % closing_ok, where=body.where(), cfg=cfg)
-    # the escape test: switch on Eq(c, '\'') ; true edge writes "'\''" ; false edge writes c itself
-    found = False; detail = 'no comparison of the current character with \'\\\'\' found'
-    for i, b in enumerate(body.blocks):
-        t = b['term']
-        if t['k'] != 'switch':
+    def writes(b, path):
+        out = []
+        for (blk, c), av in zip(path.calls, path.callvals):
+            if c.is_(r'write_char$') and len(av) > 1:
+                v = av[1]
+                out.append(v[1] if (v is not UNKNOWN and v[0] == 'c') else '<dyn>')
+            elif c.is_(r'write_str$', r'push_str$') and len(av) > 1:
+                v = av[1]
+                if v is not UNKNOWN and v[0] == 'c' and isinstance(v[1], str): out.append(v[1])
+                else:
+                    rs = provenance(b, c.args[1], c.bb, 'term')
+                    out.append(rs[0].what if len(rs) == 1 and rs[0].kind == 'const' else '<dyn>')
+            elif c.is_(r'write_fmt$'):
+                out.append('<fmt>')
+        return ''.join(out)
+    # the per-character unit
+    unit = None
+    nxt = [c for c in body.calls() if c.is_(r"std::str::Chars<.*> as std::iter::Iterator>::next$")]
+    if len(nxt) == 1 and nxt[0].target is not None:
+        sw = switch_on_call(body, nxt[0])
+        if sw is not None and sw.target('Some') is not None and nxt[0].dest and not nxt[0].dest[1]:
+            unit = ('loop', body, sw.target('Some'), nxt[0])
+    if unit is None:
+        for clo in fs.closures_of(body):
+            for c in body.calls():
+                if c.is_(r'Iterator>?::(for_each|try_for_each|try_fold|fold|all|any|map)$') and len(c.args) >= 2:
+                    recv = provenance(body, c.args[0], c.bb, 'term', through=None)
+                    isclo = any(q.kind == 'agg' and q.extra.get('closure') == clo.path for a_ in c.args[1:] for q in provenance(body, a_, c.bb, 'term', through=None))
+                    if isclo and recv and all(q.kind == 'call' and q.call.is_(r'str::<impl str>::chars$') for q in recv):
+                        unit = ('closure', clo, 0, c)
+    if unit is None:
+        raise Broken('Shell::fmt: no per-character unit (loop over chars() or closure on chars()) found')
+    table = {}
+    for ch in (Q, 'a', '\\', '"', '$', ' ', '\n'):
+        kind, b, start, anchor = unit
+        w = Walker(b, max_paths=200, max_visits=1)
+        if kind == 'loop':
+            w.stop = {anchor.bb}
+            store = {anchor.dest[0]: ('agg', 'std::option::Option', 'Some', [('c', ch)])}
+        else:
+            store = {b.arg_count: ('c', ch)}      # last parameter of the closure is the character
+        outs = set()
+        for pth in w.run(start, store):
+            if pth.end in ('stop', 'return'):
+                outs.add(writes(b, pth))
+        table[ch] = sorted(outs)
+    esc = table[Q] == ["'\\''"]
+    raw = all(table[ch] == [ch] for ch in table if ch != Q)
+    ctx.ob('T5.escaper', 'Shell::fmt:quote-escaped', esc and raw,
+           'Shell::fmt writes, per character (%s form): %s (a quote must become \'\\\'\', every other character itself)' % (unit[0], {k: v for k, v in table.items()}), where=body.where(), cfg=cfg)
+    # the frame: the first and the last thing written on every successful path is a single quote
+    w = Walker(body, max_paths=400, max_visits=2)
+    frames = set()
+    for pth in w.run():
+        if pth.end != 'return' or pth.ret is UNKNOWN or pth.ret[0] != 'agg' or pth.ret[2] != 'Ok':
             continue
-        roots = provenance(body, t['op'], i, 'term', through=None)
-        if len(roots) == 1 and roots[0].kind == 'bin' and roots[0].extra['op'] in ('Eq', 'Ne'):
-            a, bb_ = roots[0].extra['a'], roots[0].extra['b']
-            consts = [op_const(x) for x in (a, bb_)]
-            if not any(c and c.get('v') == Q for c in consts):
-                continue
-            false_t = [tb for v, tb in t['targets'] if v == 0]
-            true_t = t['otherwise']
-            if roots[0].extra['op'] == 'Ne':
-                true_t, false_t = (false_t[0] if false_t else None), [t['otherwise']]
-            def first_call(bs):
-                c = body.call_at(bs)
-                return c
-            ct = first_call(true_t); cf = first_call(false_t[0]) if false_t else None
-            esc_ok = ct is not None and ct.is_(r'write_str$') and any(x.kind == 'const' and x.what == "'\\''" for x in provenance(body, ct.args[1], ct.bb, 'term'))
-            raw_ok = cf is not None and cf.is_(r'write_char$') and all(x.kind == 'call' and x.call.is_(r'Chars.*next$') for x in provenance(body, cf.args[1], cf.bb, 'term'))
-            found = esc_ok and raw_ok
-            detail = 'quote branch writes %s; other branch writes %s' % (
-                'the escape sequence \'\\\'\'' if esc_ok else 'something else', 'the character itself' if raw_ok else 'something else')
-    ctx.ob('T5.escaper', 'Shell::fmt:quote-escaped', found, 'Shell::fmt: ' + detail, where=body.where(), cfg=cfg)
-    # no other writes of non-constant text
-    others = [c for c in body.calls() if c.is_(r'write_str$', r'write_char$', r'write_fmt$')]
-    ctx.ob('T5.escaper', 'Shell::fmt:write-count', len(others) == 4, 'Shell::fmt performs %d writes (opening quote, escape, character, closing quote)' % len(others), where=body.where(), cfg=cfg)
+        ws = [x for x in [(c, av) for (blk, c), av in zip(pth.calls, pth.callvals) if c.is_(r'write_char$', r'write_str$')] if x[0].body is body]
+        vals = [(av[1][1] if (len(av) > 1 and av[1] is not UNKNOWN and av[1][0] == 'c') else '?') for (c, av) in ws]
+        frames.add((vals[0] if vals else None, vals[-1] if vals else None, len(vals) >= 2))
+    ok = bool(frames) and all(f == (Q, Q, True) for f in frames)
+    ctx.ob('T5.escaper', 'Shell::fmt:opening-quote', ok, 'every Ok path of Shell::fmt starts by writing a quote: %s' % sorted(map(str, frames)), where=body.where(), cfg=cfg)
+    ctx.ob('T5.escaper', 'Shell::fmt:closing-quote', ok, 'every Ok path of Shell::fmt ends by writing a quote: %s' % sorted(map(str, frames)), where=body.where(), cfg=cfg)
 
 def t6(ctx, cfg, fs):
     body = ctx.look(fs.one(r'complete_gen::.*check_complete$'))
